@@ -28,6 +28,9 @@ The translation is STRUCTURAL, statement by statement and expression by expressi
   N8  `e[i]` with i a name or a non-negative int literal is EIndex; list and tuple displays are EList.
   N9  `raise Name(args)` -> SRaise "Name" args; `return` -> SReturn ENone; `pass` -> SSkip.
   N10 `'literal'.format(args)` (message texts) is the primitive "str.format" applied to the literal and args.
+EMD_REPO selects the source tree (default /repo); the output is $EMD_COQ_DIR/gen/Gen_Skeleton.v (default
+/verif/coq; the harness points EMD_COQ_DIR at a private copy of the Coq tree whenever EMD_REPO is not /repo,
+so a seeded evaluation never touches the shared tree); EMD_SKELETON_OUT overrides the full output path.
 FAIL CLOSED: any other statement or expression shape inside the translated regions ends the run with exit
 code 2 and a message, and the generated file is not touched.
 """
@@ -37,7 +40,9 @@ import sys
 
 REPO = os.environ.get('EMD_REPO', '/repo')
 SRC = os.path.join(REPO, 'emd', 'sift.py')
-OUT = os.path.join(os.path.dirname(os.path.dirname(os.path.abspath(__file__))), 'coq', 'gen', 'Gen_Skeleton.v')
+COQ_DIR = os.environ.get('EMD_COQ_DIR') or os.path.join(
+    os.path.dirname(os.path.dirname(os.path.abspath(__file__))), 'coq')
+OUT = os.environ.get('EMD_SKELETON_OUT') or os.path.join(COQ_DIR, 'gen', 'Gen_Skeleton.v')
 MODULES = {'np'}
 LOGGER = 'logger'
 LOG_LEVELS = {'debug', 'info', 'verbose', 'warning', 'error', 'critical'}
